@@ -407,7 +407,7 @@ MUT_TOKENS = ["-", "--", "-z", "--zz=1", "--zz", "-z=5", "x", "-o=", "--out=", "
 def mutate(rng, toks, decls):
     toks = list(toks)
     opts = [d for d in decls if d["t"] == "opt"]
-    kind = rng.choice(["del", "dup", "ins", "swap", "undecl", "occ", "pos", "q1", "emptyval", "novalue", "dashval", "dashletter"])
+    kind = rng.choice(["del", "dup", "ins", "swap", "undecl", "occ", "pos", "q1", "emptyval", "novalue", "dashval", "dashletter", "nearname"])
     if kind == "del" and toks:
         del toks[rng.randrange(len(toks))]
     elif kind == "dup" and toks:
@@ -437,6 +437,23 @@ def mutate(rng, toks, decls):
         lg = [n[2:] for d in opts for n in opt_names(d) if len(n) > 2]
         if fl:
             t = "-" + "".join(rng.choice(fl) for _ in range(rng.randint(1, 2))) + "-" + rng.choice(["", "", rng.choice(fl)] + lg[:1])
+            toks.insert(rng.randint(0, len(toks)), t)
+    elif kind == "nearname" and opts:
+        # a token that is ALMOST a declared name: other case, a proper prefix of a long name, a long name with one more
+        # letter, a long name behind one dash, a short name behind two
+        d = rng.choice(opts)
+        n = rng.choice(opt_names(d))
+        bare = n.lstrip("-")
+        cands = [n[:len(n) - len(bare)] + bare.swapcase()]
+        if len(bare) > 1:
+            cands += ["--" + bare[:rng.randint(1, len(bare) - 1)], "--" + bare + "x", "-" + bare]
+        else:
+            cands += ["--" + bare]
+        t = rng.choice(cands)
+        declared = set(x for o in opts for x in opt_names(o))
+        if t not in declared:
+            if rng.random() < 0.3:
+                t += "=" + rng.choice(["v", "true"])
             toks.insert(rng.randint(0, len(toks)), t)
     elif kind == "emptyval" and opts:
         d = rng.choice(opts)
